@@ -582,8 +582,82 @@ def param_list(tier):
     return out
 
 
+def renegotiation_cases(rep):
+    """The protocol handler is replaced on a live EZSP object (what reset + version negotiation do) after commands have been
+    used; the same command names are then called again, concurrently.  Every call must still get its own reply, with one
+    request in flight and request sequence numbers restarting at 0 and advancing by one."""
+    import bellows.types as t
+
+    n = 0
+    for version in ezspenv.VERSIONS:
+        for switch_to in ("same", "legacy-then-same"):
+            n += 1
+            loop = VLoop().enter()
+            try:
+                ezsp, gw, ncp = ezspenv.make_stack(loop, version)
+                sw = getattr(ezsp, "_switch_protocol_version", None)
+                if sw is None:
+                    return n
+                state = {"out": 0, "max": 0, "seqs": []}
+                inner = ncp.on_request
+
+                def on_send(data, inner=inner, state=state):
+                    state["out"] += 1
+                    state["max"] = max(state["max"], state["out"])
+                    state["seqs"].append(data[0])
+                    inner(data)
+
+                gw.on_send = on_send
+                deliver0 = ncp.deliver
+
+                def deliver(frame, state=state, deliver0=deliver0):
+                    state["out"] -= 1
+                    deliver0(frame)
+
+                ncp.deliver = deliver
+                ncp.handlers["getNodeId"] = lambda a: [0x1234]
+                ncp.handlers["nop"] = lambda a: []
+                ncp.handlers["getEui64"] = lambda a: [t.EUI64(bytes(range(8)))]
+
+                async def batch():
+                    return await asyncio.gather(ezsp.getNodeId(), ezsp.nop(), ezsp.getEui64(), return_exceptions=True)
+
+                key = "C06|renegotiation"
+                for phase in (0, 1):
+                    if phase == 1:
+                        if switch_to != "same":
+                            sw(4)
+                        sw(version)
+                        ncp.framing = version
+                        state["seqs"].clear()
+                    task = loop.create_task(batch())
+                    loop.run_until_idle(horizon=loop.time() + 60.0)
+                    label = f"v{version} {'after the handler was replaced (' + switch_to + ')' if phase else 'first use'}"
+                    if not task.done():
+                        rep.add_violation(key, f"{label}: commands never finished", {"world": "c06", "kind": "renegotiation", "version": version})
+                        task.cancel()
+                        loop.settle()
+                        break
+                    res = task.result()
+                    ok = (len(res) == 3 and not any(isinstance(r, BaseException) for r in res) and list(res[0]) == [0x1234] and list(res[1]) == []
+                          and bytes(res[2][0].serialize()) == bytes(range(8)))
+                    if not ok:
+                        rep.add_violation(key, f"{label}: calls did not return their own replies: {[repr(r)[:40] for r in res]}",
+                                          {"world": "c06", "kind": "renegotiation", "version": version})
+                    if state["max"] > 1:
+                        rep.add_violation(key + "|two-in-flight", f"{label}: {state['max']} requests were awaiting their responses at the same time",
+                                          {"world": "c06", "kind": "renegotiation", "version": version})
+                    if phase == 1 and state["seqs"] != list(range(len(state["seqs"]))):
+                        rep.add_violation(key + "|sequence", f"{label}: request sequence numbers {state['seqs']}, expected 0, 1, 2",
+                                          {"world": "c06", "kind": "renegotiation", "version": version})
+            finally:
+                loop.shutdown()
+    return n
+
+
 def main(tier: str) -> int:
     rep = report.Report("C06", tier, "model_checking")
+    n_reneg = renegotiation_cases(rep)
     k = 2 if tier == "quick" else 3
     st = explore.dbdfs(("mc.checks.c06", "build"), param_list(tier), k, budget_s=(60 if tier == "quick" else 1500))
     # sequence wrap: 300 sequential commands, every single deviation inside a window of positions
@@ -591,6 +665,9 @@ def main(tier: str) -> int:
     for v in ([4, 13] if tier == "quick" else ezspenv.VERSIONS):
         win = (250, 260) if tier == "quick" else (0, 299)
         wrap_params.append({"version": v, "callers": [], "sequential": 300, "window": win})
+        if tier == "quick":
+            # a deviation among the first commands is met again when the 8-bit sequence number comes round (position + 256)
+            wrap_params.append({"version": v, "callers": [], "sequential": 300, "window": (0, 8)})
     st2 = explore.dbdfs(("mc.checks.c06", "build"), wrap_params, 1, budget_s=(60 if tier == "quick" else 1200))
     for s in (st, st2):
         for v, params, choices, labels in s.violations:
@@ -605,6 +682,7 @@ def main(tier: str) -> int:
         "executions": st.executions + st2.executions,
         "max_deviations_completed": (k if not st.capped else k - 1),
         "wrap_executions": st2.executions,
+        "renegotiation_cases": n_reneg,
         "capped": capped,
         "exhaustive": not capped,
         "distinct_outcome_signatures": len(st.signatures) + len(st2.signatures),
@@ -622,6 +700,12 @@ def main(tier: str) -> int:
 
 
 def replay(data) -> int:
+    if data.get("kind") == "renegotiation":
+        rep = report.Report("C06", "quick", "model_checking")
+        renegotiation_cases(rep)
+        for v in rep.violations:
+            print(v.key, v.message)
+        return 1 if rep.violations else 0
     w = World(data["params"])
     bad = list(w.viol)
     for c in data["choices"]:
